@@ -198,6 +198,10 @@ def read_dfxp(doc):
     if dup:
         problems.append(f"xml:id defined more than once: {dup}")
     styles = {el.get(XMLNS + "id"): dict(el.attrib) for el in root.iter(TTML + "style") if el.get(XMLNS + "id")}
+    for sid, attrs_ in styles.items():
+        for ref_ in (attrs_.get("style") or "").split():
+            if ref_ not in styles:
+                problems.append(f"style {sid!r} refers to style={ref_!r}, which has no definition in the head")
     regions = {}
     for el in root.iter(TTML + "region"):
         rid = el.get(XMLNS + "id")
@@ -362,6 +366,11 @@ def caption_sets(thorough):
     yield "document styles", {"langs": {"en-US": [(S, 2 * S, ["styled"], None, {"class": "emph"}),
                                                   (3 * S, 4 * S, ["plain"], None, None)]},
                               "styles": {"emph": {"italics": True}, "p": {"color": "white"}}}
+    # chained referential styling: a style that refers to another one - also to one that gives the writer nothing to write
+    yield "chained document styles", {"langs": {"en-US": [(S, 2 * S, ["styled"], None, {"class": "speaker"}),
+                                                          (3 * S, 4 * S, ["slanted"], None, {"class": "a-ref"})]},
+                                      "styles": {"speaker": {"class": "strong", "classes": ["strong"]}, "strong": {"bold": True},
+                                                 "a-ref": {"class": "emph", "classes": ["emph"]}, "emph": {"italics": True}}}
     yield "style id with metacharacters", {"langs": {"en-US": [(S, 2 * S, ["styled"], None, {"class": "a\"b<c"})]},
                                            "styles": {"a\"b<c": {"italics": True}}}
 
